@@ -138,3 +138,17 @@ impl<'a> core::iter::Sum<&'a Element> for Element {
         iter.fold(Self::zero(), core::ops::Add::add)
     }
 }
+
+// Verification hooks: raw access to the internal representative.
+#[cfg(decaf377_verif)]
+impl Element {
+    pub fn verif_coords(&self) -> (Fq, Fq, Fq, Fq) {
+        (self.inner.x, self.inner.y, self.inner.z, self.inner.t)
+    }
+
+    pub fn verif_from_coords(x: Fq, y: Fq, z: Fq, t: Fq) -> Element {
+        Element {
+            inner: EdwardsProjective::new_unchecked(x, y, t, z),
+        }
+    }
+}
